@@ -433,3 +433,23 @@ Lemma ex_empty_methods :
   map_match no_hooks (mk_map [ex_r4]) ex_adapter [47; 97] GET = NotFound
   /\ wrong_method (mk_map [ex_r4]) GET ex_r4 (request_parts (mk_map [ex_r4]) ex_adapter [47; 97]).
 Proof. split; [vm_compute; reflexivity|]. exists []. split; vm_compute; reflexivity. Qed.
+
+(* when some rule serves the path itself, the first pass answers: a match, or the slash redirect of a
+   strict rule that admits the path but for its trailing slash *)
+Lemma matcher_first_pass m domain path meth ws r :
+  In r (m_rules m) -> serves m meth ws r (domain :: split_slash path) ->
+  (exists r1 v1, matcher_run m (trie_of m) domain path meth ws = MOk rule rres r1 v1)
+  \/ (matcher_run m (trie_of m) domain path meth ws = MPath rule rres (path ++ [SLASH])
+      /\ exists r2, In r2 (m_rules m) /\ admits m r2 (domain :: split_slash path) = ASlash rres).
+Proof.
+  intros Hin (Ha & Hm & Hw). unfold matcher_run, matcher_match.
+  destruct (smatch _ _ _ _ _ _ _ _ _ _ (trie_of m) (domain :: split_slash path) []) as [[x h1] w1] eqn:E1.
+  unfold trie_of in E1.
+  pose proof (root_complete_hit dpart rule rres pmatch dpart_eqb dpart_wlt rmethods r_websocket (rstrict m) rconvert rparts
+                dpart_eqb_eq (m_rules m) meth ws (domain :: split_slash path) r Hin Ha Hm Hw) as Hc.
+  rewrite E1 in Hc. cbn [fst] in Hc. destruct x as [|r1 v1|]; [contradiction| |].
+  - left. eauto.
+  - right. split; [reflexivity|].
+    destruct (root_slash_sound dpart rule rres pmatch dpart_eqb dpart_wlt rmethods r_websocket (rstrict m) rconvert rparts
+                dpart_eqb_eq _ _ _ _ _ _ E1) as (r2 & Hin2 & Ha2 & _ & _). eauto.
+Qed.
